@@ -39,6 +39,8 @@ func runC09(c *Ctx, r *Report) {
 	decodeReadsNoProcessState(c, r, "R-C09.14")
 	r.Doc("R-C09.15", "the fetch worker gives up a fetched entry only because the fetch failed or by its own bookkeeping: no condition in the worker reads the entry's payload or additional data (whatever Append wrote must load again)")
 	workerKeepsWhatItFetched(c, r, "R-C09.15")
+	r.Doc("R-C09.16", "no constructor consumes another call's leftovers: a function that hands the caller's options value on as it is sets every field that some function fills with data of its own call (the heads a manifest load leaves in a reused options value must not become the heads of the next, different load)")
+	noCallSpecificLeftovers(c, r, "R-C09.16")
 	r.Doc("R-C09.8", "the entry reader refuses a block only when reading or decoding it failed: no extra acceptance test on the decoded entry (whatever Append wrote must load again)")
 	// the heads of the rebuilt log: fetched entries whose hash equals a manifest head
 	{
